@@ -4,6 +4,7 @@
 //! (epoch 0) handshake traffic of a live pair.
 #![allow(dead_code)]
 pub mod engine;
+pub mod impostor;
 
 pub const CT_CCS: u8 = 20;
 pub const CT_ALERT: u8 = 21;
